@@ -8,6 +8,8 @@ Metamorphic, engine vs engine, independent of the reference model:
   P [E]          = every stack of P with exactly one sequence added; its elements are the TOS of
                    the results of E (checked when P yields one stack)
   P let X := E;  = the stack of P repeated once per result of E, unchanged
+  P I K          = P K for contexts I that hold on every stack / bind an unread name, and continuations K (the
+                   stack a context hands on must also *behave* like the incoming one: type dispatch, depth)
 When a diagnostic is printed the two halves may both miss that input, so the equality weakens
 to inclusion.  P and E come from the typed generator (any stack effect for E, any number of
 yields, soft failures included) and from DWARF traversals on sample binaries.
@@ -212,6 +214,7 @@ def work_core(task):
                                     bad = "let changed the stack below the bound value"
                         if bad:
                             ev.violations.append({"property": PID, "query": "%s let Xx := %s;" % (P, E), "reason": bad, "signature": "C04:let:" + P + E})
+                continuation(ev, drv, rnd, g, P, pst, E, est, scope, rp)
             except DriverCrash as e:
                 ev.violations.append({"property": PID, "query": "%s ?(%s)" % (P, E), "reason": "driver crashed: " + e.report[-3000:],
                                       "signature": "C04:crash:" + P + E})
@@ -220,6 +223,54 @@ def work_core(task):
     finally:
         drv.kill()
     return ev
+
+
+# Contexts that hold on every stack (or bind a name nobody reads): P <context> must be P, not only in what a dump of
+# the stack shows but in everything that can be computed from it afterwards.
+INERT = ["let Xx := 0;", "let Xx := \"s\";", "let Xx := [];", "?(0)", "?(drop)", "?(drop drop)", "!(0 1 ?eq)", "!(drop 0 1 ?eq)",
+         "[1] drop", "[] drop", "[dup] drop", "(0 == 0)", "(\"a\" != \"b\")", "?(0 == 0)", "!(0 == 1)", "?(dup == dup)",
+         "let Xx Yy := 1 2;", "?(let Zz := 1;)", "(0 == 0) (1 == 1)"]
+BINARY = {G.C: ["add", "sub", "mul"], G.S: ["add", "?find", "!find", "?starts", "!starts", "?ends", "!ends"],
+          G.Q: ["add", "?find", "!find", "?starts", "!starts", "?ends", "!ends"]}
+
+
+def continuation(ev, drv, rnd, g, P, pst, E, est, scope, rp):
+    """results(P I K) = results(P K) for an inert context I and a continuation K -- in particular one that pops
+    down to two values of one type and applies a word that is dispatched on the types of both."""
+    ks = []
+    for j in range(0, max(0, len(pst) - 1)):
+        a, b = pst[len(pst) - j - 2], pst[len(pst) - j - 1]
+        if a == b and a in BINARY:
+            ks.append("drop " * j + rnd.choice(BINARY[a]))
+    if len(pst) >= 1 and pst[-1] in (G.S, G.Q):
+        ks.append("length")
+    try:
+        knode, _ = g.seq(list(pst), G.Scope(scope), 1, rnd.randint(1, 3))
+        ks.append(render(knode))
+    except Exception:
+        pass
+    rnd.shuffle(ks)
+    for K in ks[:2]:
+        I = rnd.choice(INERT)
+        if I.startswith(("?(drop", "!(drop", "[dup]", "?(dup")) and len(pst) < (2 if "drop drop" in I else 1):
+            continue
+        q0, q1 = "%s %s" % (P, K), "%s %s %s" % (P, I, K)
+        r0, r1 = run(drv, q0), run(drv, q1)
+        if "cerror" in r0 or "cerror" in r1 or not (r0.get("end") or "error" in r0) or not (r1.get("end") or "error" in r1):
+            ev.inconc("continuation does not compile or is capped")
+            continue
+        depth4 = any(len(s_) == 4 for s_ in rp["res"])
+        ev.case(key=("cont", P, I, K), nontrivial=len(pst) >= 2)
+        ev.label("continuation")
+        if depth4:
+            ev.label("continuation:stack-of-4")
+        a = ([full(s_) for s_ in r0.get("res", [])], r0.get("error") is not None, r0["stderr"].count(b"Error"))
+        b = ([full(s_) for s_ in r1.get("res", [])], r1.get("error") is not None, r1["stderr"].count(b"Error"))
+        if a != b:
+            ev.violations.append({"property": PID, "query": q1, "reference": q0, "signature": "C04:cont:" + q1[:200],
+                                  "reason": "the inert context %s changes what follows: without it %d result(s), %d diagnostic(s)%s; with it %d result(s), %d diagnostic(s)%s; first difference %r"
+                                  % (I, len(a[0]), a[2], " and a failure" if a[1] else "", len(b[0]), b[2], " and a failure" if b[1] else "",
+                                     next(((x, y) for x, y in zip(a[0] + [None], b[0] + [None]) if x != y), None))})
 
 
 def work_words(task):
@@ -313,7 +364,8 @@ def main(tier, seed):
                                "when a diagnostic is printed, the equality is weakened to inclusion (the statement lets neither form hold on an erroring input)"],
                   health={"word pairs checked": ev.labels.get("?word/!word", 0) + ev.labels.get("?word/!word:with-diagnostic", 0) > 1000,
                           "dwarf prefixes checked": ev.labels.get("dwarf-prefix", 0) > 10,
-                          "[E] and let checked": ev.labels.get("[E]", 0) > 100 and ev.labels.get("let", 0) > 100})
+                          "[E] and let checked": ev.labels.get("[E]", 0) > 100 and ev.labels.get("let", 0) > 100,
+                          "continuations after inert contexts (also on stacks of exactly 4)": ev.labels.get("continuation", 0) > 1000 and ev.labels.get("continuation:stack-of-4", 0) > 100})
 
 
 def replay(path):
